@@ -516,7 +516,14 @@ impl<'a, T: ColumnProvider> ExpressionExecutionEngine<'a, T> {
                         let index = self.evaluate(index)?;
                         match index {
                             Value::Int(value) => {
-                                Ok(values.get((value - 1) as usize).cloned().unwrap_or(Value::Null))
+                                // 1-based; anything outside the array (zero, negative, huge) is NULL
+                                Ok(
+                                    value.checked_sub(1)
+                                        .and_then(|index| usize::try_from(index).ok())
+                                        .and_then(|index| values.get(index))
+                                        .cloned()
+                                        .unwrap_or(Value::Null)
+                                )
                             }
                             _ => {
                                 Err(EvaluationError::ExpectedArrayIndexingToBeInt(index.value_type()))
